@@ -355,6 +355,63 @@ func (f *Flow) OkReturns(fn *ssa.Function) []*ssa.Return {
 	return out
 }
 
+// BlocksReachingOK: the blocks of fn from which a return that may succeed is reachable. Code in
+// any other block only ever runs on the way to a return whose error is definitely non-nil.
+func (f *Flow) BlocksReachingOK(fn *ssa.Function) map[*ssa.BasicBlock]bool {
+	out := map[*ssa.BasicBlock]bool{}
+	var work []*ssa.BasicBlock
+	for _, r := range f.OkReturns(fn) {
+		work = append(work, r.Block())
+	}
+	for len(work) > 0 {
+		b := work[len(work)-1]
+		work = work[:len(work)-1]
+		if out[b] {
+			continue
+		}
+		out[b] = true
+		work = append(work, b.Preds...)
+	}
+	return out
+}
+
+// LocalOnlyAlloc: the address of the allocation is used only to read and write it (directly or
+// through field/element addresses): it is never passed to a call, stored, captured or returned, so
+// nothing outside the function can observe what is stored in it except through loaded values.
+func LocalOnlyAlloc(a *ssa.Alloc) bool {
+	var ok func(addr ssa.Value, d int) bool
+	ok = func(addr ssa.Value, d int) bool {
+		if d > 4 || addr.Referrers() == nil {
+			return false
+		}
+		for _, ref := range *addr.Referrers() {
+			switch x := ref.(type) {
+			case *ssa.DebugRef:
+			case *ssa.Store:
+				if x.Val == addr {
+					return false
+				}
+			case *ssa.UnOp:
+				if x.Op != token.MUL {
+					return false
+				}
+			case *ssa.FieldAddr:
+				if !ok(x, d+1) {
+					return false
+				}
+			case *ssa.IndexAddr:
+				if !ok(x, d+1) {
+					return false
+				}
+			default:
+				return false
+			}
+		}
+		return true
+	}
+	return ok(a, 0)
+}
+
 // Edge is a CFG edge.
 type Edge struct{ From, To *ssa.BasicBlock }
 
